@@ -30,7 +30,10 @@ RULE = (
     "inject), plus prefixes of the file in flight. One evaluation = one (history, crash point[, cut]) compared with the "
     "model (run directory + how a fresh run starts) under one of the three resume configurations the code distinguishes "
     "(load_model unset / a model-only directory / a full snapshot of another run with opt.pt), ALL four restored components "
-    "compared bit-exactly; or one mode round trip / window step. Non-trivial = a crash point after the "
+    "compared bit-exactly; or one serve/train round trip for one of the 16 (train_dtype, serve_dtype) pairs over "
+    "float64/float32/bfloat16/float16 on weights with tiny/denormal/huge magnitudes (direct and through the real train_step), "
+    "or one save->load into fresh objects for a model configuration (positional encoding sin/learned/none x PolicyValue/text head "
+    "x shapes; every tensor of state_dict), or one window step. Non-trivial = a crash point after the "
     "first operation, a mode switch that changed bits, a window push that evicted."
 )
 TRUSTED = [
@@ -175,6 +178,7 @@ class Lab:
         self.catalogue = {}  # (params, opt, replay, counters) digests -> "id:step"
         self.components = {}  # (component, digest) -> {state ids}
         self.components_of_lm = None
+        self.param_fps = {}  # state id -> {state_dict key: tensor digest}
         self.names = {}  # "id:step" -> digests, to notice a state that is not reproducible
         self.config_digest = None
         self.lm = {"unset": None, "model": None, "full": None}  # config.load_model per configuration
@@ -215,6 +219,8 @@ class Lab:
         self.catalogue[key] = name
         for comp in ("params", "opt", "replay", "counters"):
             self.components.setdefault((comp, fp[comp]), set()).add(sid)
+        if fp.get("param_fps"):
+            self.param_fps[sid] = fp["param_fps"]
 
     LM_SID = 900  # the state held by the `load_model` directories
 
@@ -269,6 +275,9 @@ class Lab:
                 return "p"
             if f == "config.yaml":
                 return "cfg" if dig == self.config_digest else "p"
+            if f == "model.pt":
+                ids = [sid for sid, fps in self.param_fps.items() if all(fps.get(k) == v for k, v in dig.items())]
+                return "|".join("s%d" % i for i in sorted(ids)) if ids else "p"
             ids = self.components.get((self.COMPONENT.get(f), dig))
             return "|".join("s%d" % i for i in sorted(ids)) if ids else "p"
 
@@ -675,67 +684,271 @@ def verdicts(hr):
 # serve/train mode, replay window (in-process, real code)
 
 
-def check_modes(ctx, divs):
+DTYPES = ("float64", "float32", "bfloat16", "float16")
+
+# magnitudes that a cast to another floating format does not survive: below the normal range of
+# float16 / bfloat16 / float32, denormals, between representable neighbours, above float16's and
+# float32's largest value
+SPECIAL = [
+    0.0, -0.0, 5e-324, 1e-300, -2.5e-310, 1e-45, -4.2e-45, 1e-40, -3e-39, 1.1754942e-38, 9.2e-41,
+    5.9e-8, 6.0e-8, -1.2e-7, -1.993030309677124e-07, 2.0 ** -17, 2.0 ** -24, 1.5 * 2.0 ** -25, 3.1e-6, 7.6e-6,
+    6.0e-5, 6.1035e-5, 6.104e-5, 1.0 + 2.0 ** -7, 1.0 + 2.0 ** -8, 1.0 + 2.0 ** -10, 1.0 + 2.0 ** -11, 1.0 + 2.0 ** -23,
+    1.0 + 2.0 ** -24, 1.0 + 2.0 ** -52, 0.1, -0.3, 1.0009765625, 255.9, 2049.0, 65504.0, 65519.0, 65520.0, 70000.0, -1.0e5,
+    1.0e30, 3.3e38, -3.4028234e38, 1.0e39, 1.0e300,
+]
+
+
+def inject_special(sc, model, tiny_only=False):
+    """overwrite the leading elements of every floating tensor of the model with `SPECIAL`
+    (those that are finite in the tensor's own dtype)"""
+    torch = sc.mods().torch
+    vals = [v for v in SPECIAL if (abs(v) < 1e-4 or not tiny_only)]
+    with torch.no_grad():
+        for k, t in model.state_dict().items():
+            if not t.is_floating_point() or t.numel() == 0:
+                continue
+            v = torch.tensor(vals, dtype=torch.float64).to(t.dtype)
+            v = v[torch.isfinite(v)]
+            n = min(t.numel(), v.numel())
+            # rotate so that short tensors (biases of one or two elements) get different values
+            off = (len(k) * 7) % max(1, v.numel() - n + 1)
+            t.view(-1)[:n] = v[off : off + n]
+
+
+def finite(torch, model):
+    """two AdamW steps in float16 can leave NaNs; weights are meant to be numbers"""
+    with torch.no_grad():
+        for t in model.state_dict().values():
+            if t.is_floating_point():
+                t.nan_to_num_(nan=0.25, posinf=1.0, neginf=-1.0)
+
+
+def clone_sd(model):
+    return {k: v.detach().clone() for k, v in model.state_dict().items()}
+
+
+def diff_sd(torch, got, want):
+    """tensors of `got` that are not bit for bit (and dtype for dtype) those of `want`"""
+    out = []
+    for k in sorted(set(got) | set(want)):
+        if k not in got or k not in want:
+            out.append("%s: %s" % (k, "missing" if k not in got else "unexpected"))
+            continue
+        a, b = got[k].detach().cpu().contiguous(), want[k].detach().cpu().contiguous()
+        if a.dtype != b.dtype or a.shape != b.shape:
+            out.append("%s: %s%s instead of %s%s" % (k, a.dtype, tuple(a.shape), b.dtype, tuple(b.shape)))
+            continue
+        if a.numel() == 0:
+            continue
+        ab = a.reshape(-1).view(torch.uint8).reshape(a.numel(), -1)
+        bb = b.reshape(-1).view(torch.uint8).reshape(b.numel(), -1)
+        bad = (ab != bb).any(1)
+        n = int(bad.sum())
+        if n:
+            i = int(bad.nonzero()[0])
+            out.append("%s: %d/%d elements differ (first: %r -> %r)" % (k, n, a.numel(), b.reshape(-1)[i].item(), a.reshape(-1).double()[i].item() if a.is_floating_point() else a.reshape(-1)[i].item()))
+    return out
+
+
+def modes_case(ctx, sc, tr, sv, sid, divs):
+    m = sc.mods()
+    torch = m.torch
+    inp = {"kind": "modes", "train_dtype": tr, "serve_dtype": sv, "sid": sid}
+
+    def report(via, diffs, extra=""):
+        divs.append(
+            Divergence(
+                "corr.snapshot:modes",
+                dict(inp, via=via, tensor=diffs[0].split(":")[0]),
+                "%d tensors not restored bit for bit%s: %s" % (len(diffs), extra, "; ".join(diffs[:3])),
+                "every tensor of state_dict unchanged",
+            )
+        )
+
+    # (1) serve_mode; train_mode, repeated, on weights with awkward magnitudes
+    run = sc.fresh_run(None, {"train_dtype": tr, "serve_dtype": sv})
+    sc.init_state(run, sid, 1)
+    finite(torch, run.state.model)
+    inject_special(sc, run.state.model)
+    ref = clone_sd(run.state.model)
+    for rep in range(3):
+        run.serve_mode()
+        served = run.state.model.state_dict()
+        changed = bool(diff_sd(torch, {k: v.to(ref[k].dtype) for k, v in served.items()}, ref))
+        run.train_mode()
+        ctx.evaluated()
+        ctx.count("modes:cast-changed-bits" if changed else "modes:cast-exact")
+        if changed:
+            ctx.nontrivial("modes|%s|%s|%d|%d" % (tr, sv, sid, rep))
+        diffs = diff_sd(torch, run.state.model.state_dict(), ref)
+        if diffs:
+            report("serve_mode;train_mode (round trip %d)" % (rep + 1), diffs)
+            return
+    # (2) through the real train_step (tiny learning rate, so that tiny weights stay tiny)
+    run = sc.fresh_run(None, {"train_dtype": tr, "serve_dtype": sv, "lr": 1e-9, "train_positions": 4, "train_batch": 4})
+    sc.init_state(run, sid, 1)
+    finite(torch, run.state.model)
+    inject_special(sc, run.state.model, tiny_only=True)
+    cls = type(run)
+    orig_serve, orig_train = cls.serve_mode, cls.train_mode
+    seen = {}
+
+    def serve_rec(self):
+        seen["before_serve"] = clone_sd(self.state.model)
+        return orig_serve(self)
+
+    def train_rec(self):
+        r = orig_train(self)
+        seen["after_train"] = clone_sd(self.state.model)
+        return r
+
+    steps = 2 if ctx.thorough else 1
+    try:
+        before = clone_sd(run.state.model)
+        run.serve_mode()
+        cls.serve_mode, cls.train_mode = serve_rec, train_rec
+        for i in range(steps):
+            b = sc.make_batch(500 + sid + i)
+            b["moves"] = b["moves"].to(run.config.train_dtype)
+            b["values"] = b["values"].to(run.config.train_dtype)
+            try:
+                run.train_step(b)
+            except Exception as e:  # e.g. a kernel that does not exist for this dtype on this device
+                ctx.count("modes:train_step-not-feasible[%s]" % tr)
+                ctx.note("train_step with train_dtype=%s raised %s: %s" % (tr, type(e).__name__, str(e)[:120]))
+                return
+            ctx.evaluated(2)
+            # what train_step's train_mode restored = what was there before the switch to serving
+            diffs = diff_sd(torch, seen["after_train"], before)
+            if diffs:
+                report("serve_mode; train_step's train_mode (step %d)" % (i + 1), diffs)
+                return
+            # what train_step trained = what the next train_mode restores
+            before = seen["before_serve"]
+            cls.serve_mode, cls.train_mode = orig_serve, orig_train
+            run.train_mode()
+            diffs = diff_sd(torch, run.state.model.state_dict(), before)
+            if diffs:
+                report("train_step (ends in serve_mode); train_mode (step %d)" % (i + 1), diffs)
+                return
+            run.serve_mode()
+            cls.serve_mode, cls.train_mode = serve_rec, train_rec
+        ctx.count("modes:through-train_step")
+    finally:
+        cls.serve_mode, cls.train_mode = orig_serve, orig_train
+
+
+def check_modes(ctx, divs, pairs=None):
+    """every (train_dtype, serve_dtype) pair over the four floating formats — narrower, wider,
+    same width but different format, identical"""
     from ..lib import snap_common as sc
 
+    for tr in DTYPES:
+        for sv in DTYPES:
+            if pairs is not None and (tr, sv) not in pairs:
+                continue
+            for sid in (11, 12) if ctx.thorough else (11,):
+                modes_case(ctx, sc, tr, sv, sid, divs)
+
+
+# ---------------------------------------------------------------------------------------------
+# save -> load into FRESH objects, for every model configuration the code distinguishes
+
+SHAPES = [
+    {"n_layer": 1, "d_model": 8, "d_head": 4, "n_ctx": 16},
+    {"n_layer": 2, "d_model": 16, "d_head": 8, "n_ctx": 12, "autoregressive_mask": False},
+    {"n_layer": 1, "d_model": 12, "d_head": 4, "n_ctx": 7},
+]
+
+
+def model_configs(ctx):
+    shapes = SHAPES if ctx.thorough else SHAPES[:2]
+    return [
+        dict(sh, positional_encoding=pe, head=head)
+        for pe in ("sin", "learned", "none")
+        for head in ("policy", "text")
+        for sh in shapes
+    ]
+
+
+def model_roundtrip_case(ctx, sc, mopts, sid, divs):
+    import contextlib
+    import io
+
     m = sc.mods()
-    dts = ["float16", "bfloat16", "float32"]
-    for dt in dts:
-        for sid in (11, 12, 13) if ctx.thorough else (11,):
-            run = sc.fresh_run(None, {"serve_dtype": dt})
-            sc.init_state(run, sid, 1)
-            before = sc.params_fp(run.state.model.state_dict())
-            ref = {k: v.clone() for k, v in run.state.model.state_dict().items()}
-            trips = []
-            for rep in range(3):
-                run.serve_mode()
-                served = {k: v for k, v in run.state.model.state_dict().items()}
-                changed = any(
-                    v.dtype != ref[k].dtype or not m.torch.equal(v.to(ref[k].dtype), ref[k]) for k, v in served.items()
-                )
-                run.train_mode()
-                trips.append(sc.params_fp(run.state.model.state_dict()))
-                if changed:
-                    ctx.nontrivial("modes|%s|%d|%d" % (dt, sid, rep))
-                ctx.count("modes:cast-changed-bits" if changed else "modes:cast-exact")
-            ctx.evaluated(3)
-            if any(t != before for t in trips):
-                divs.append(
-                    Divergence(
-                        "corr.snapshot:modes",
-                        {"kind": "modes", "serve_dtype": dt, "sid": sid, "via": "serve_mode;train_mode x3"},
-                        "params digests after each round trip: %s" % trips,
-                        "unchanged: %s" % before,
-                    )
-                )
-            # through the real train_step: the parameters it trained are the ones train_mode restores
-            seen = {}
-            orig = run.serve_mode
+    torch = m.torch
+    d = tempfile.mkdtemp(prefix="c19-rt-")
+    inp = {"kind": "model-roundtrip", "model": mopts, "sid": sid}
 
-            def recording_serve_mode():
-                seen["fp"] = sc.params_fp(run.state.model.state_dict())
-                return orig()
+    def report(path, diffs):
+        divs.append(
+            Divergence(
+                "corr.snapshot:roundtrip",
+                dict(inp, path=path, tensor=diffs[0].split(":")[0]),
+                "; ".join(diffs[:4]),
+                "every tensor of state_dict (parameters and buffers), optimiser state, replay buffer and counters identical",
+            )
+        )
 
-            run.serve_mode()
-            cls = type(run)
-            cls_orig = cls.serve_mode
-            cls.serve_mode = lambda self: recording_serve_mode()
-            try:
-                run.train_step(sc.make_batch(500 + sid))
-            finally:
-                cls.serve_mode = cls_orig
-            run.train_mode()
-            after = sc.params_fp(run.state.model.state_dict())
+    try:
+        opts = {"model": mopts}
+        run = sc.fresh_run(os.path.join(d, "run"), opts)
+        sc.init_state(run, sid, 3)
+        saved = clone_sd(run.state.model)
+        fp = sc.fingerprint(run.state)
+        hook = m.saving.SavingHook(freq=1)
+        hook.before_run(run.state, run.config)
+        with contextlib.redirect_stdout(io.StringIO()):
+            hook.after_run(run.state)
+        m.xformer.loading.save_model(run.state.model, os.path.join(d, "model_only"))
+        ctx.nontrivial("roundtrip|%s|%d" % (json.dumps(mopts, sort_keys=True), sid))
+        ctx.count("roundtrip:pe=%s,head=%s" % (mopts["positional_encoding"], mopts["head"]))
+
+        def other(got_fp):
+            return ["%s differs" % c for c in ("opt", "replay", "counters") if got_fp[c] != fp[c]]
+
+        # (A) the snapshot, resumed by a fresh TrainingRun / model / optimiser
+        ctx.evaluated()
+        run2, (kind, detail, _) = sc.resume_outcome(os.path.join(d, "run"), opts)
+        if kind != "loaded":
+            report("SavingHook.after_run -> load_or_init_model", ["resume: %s %s" % (kind, detail if kind == "error" else "")])
+        else:
+            diffs = diff_sd(torch, run2.state.model.state_dict(), saved) + other(detail)
+            if diffs:
+                report("SavingHook.after_run -> load_or_init_model", diffs)
+        # (B) the snapshot as a model directory: xformer.loading.load_model builds the model from config.yaml
+        for name, path in (("snapshot", os.path.join(d, "run", "latest")), ("save_model output", os.path.join(d, "model_only"))):
             ctx.evaluated()
-            if after != seen.get("fp"):
-                divs.append(
-                    Divergence(
-                        "corr.snapshot:modes",
-                        {"kind": "modes", "serve_dtype": dt, "sid": sid, "via": "train_step;train_mode"},
-                        after,
-                        str(seen.get("fp")),
-                    )
-                )
+            try:
+                mdl = m.xformer.loading.load_model(path)
+                diffs = diff_sd(torch, mdl.state_dict(), saved)
+            except Exception as e:
+                diffs = ["load_model raised %s: %s" % (type(e).__name__, str(e)[:100])]
+            if diffs:
+                report("%s -> xformer.loading.load_model" % name, diffs)
+        # (C) a run started with config.load_model = the model-only directory / the snapshot
+        for name, path in (("save_model output", os.path.join(d, "model_only")), ("snapshot", os.path.join(d, "run", "latest"))):
+            ctx.evaluated()
+            run3, (kind, detail, base) = sc.resume_outcome(os.path.join(d, "empty"), dict(opts, load_model=path))
+            if kind != "loaded":
+                report("%s as config.load_model -> load_or_init_model" % name, ["start: %s %s" % (kind, detail if kind == "error" else "")])
+                continue
+            diffs = diff_sd(torch, run3.state.model.state_dict(), saved)
+            want_opt = fp["opt"] if name == "snapshot" else base["opt"]
+            if detail["opt"] != want_opt:
+                diffs.append("opt differs")
+            if diffs:
+                report("%s as config.load_model -> load_or_init_model" % name, diffs)
+    finally:
+        shutil.rmtree(d, ignore_errors=True)
+
+
+def check_model_roundtrip(ctx, divs, only=None):
+    from ..lib import snap_common as sc
+
+    for mopts in model_configs(ctx) if only is None else [only]:
+        for sid in (41, 42) if ctx.thorough else (41,):
+            model_roundtrip_case(ctx, sc, mopts, sid, divs)
 
 
 def window_case(k, n):
@@ -900,6 +1113,7 @@ def tie(ctx):
     finally:
         close_lab()
     check_modes(ctx, divs)
+    check_model_roundtrip(ctx, divs)
     check_window(ctx, divs)
     observe_serve_precision(ctx, divs)
     ctx.exhaustive = True  # every crash point of every scripted history was enumerated
@@ -908,6 +1122,7 @@ def tie(ctx):
 
 KEY_OF_COMPONENT = {
     "corr.snapshot:modes": "mode-switch-mismatch",
+    "corr.snapshot:roundtrip": "roundtrip-mismatch",
     "corr.snapshot:window": "window-wrong",
     "corr.snapshot:serve-precision": "serve-precision-snapshot",
 }
@@ -975,8 +1190,12 @@ def replay(ctx, data):
     kind = r.get("kind")
     divs = []
     if kind == "modes":
-        check_modes(ctx, divs)
+        pairs = {(r["train_dtype"], r["serve_dtype"])} if "train_dtype" in r else None
+        check_modes(ctx, divs, pairs)
         return [Violation("mode-switch-mismatch", "%s: %s vs %s" % (d.input, d.impl, d.model), d.input) for d in divs]
+    if kind == "model-roundtrip":
+        check_model_roundtrip(ctx, divs, only=r["model"])
+        return [Violation("roundtrip-mismatch", "%s: %s vs %s" % (d.input, d.impl, d.model), d.input) for d in divs]
     if kind == "window":
         check_window(ctx, divs)
         return [Violation("window-wrong", "%s: %s vs %s" % (d.input, d.impl, d.model), d.input) for d in divs]
